@@ -35,8 +35,12 @@ func zzName() string {
 
 // zzPath: a path spelling from structural templates over the existing names
 // (a, a/x, a/d, g) and fresh symbolic names.
+// zzT / zzOps: number of path templates and operation kinds in use (set by
+// the entry points from their own parameters).
+var zzT, zzOps = 9, oNOps
+
 func zzPath(label string) string {
-	switch nd.Choose(label, nd.Param("T", 9)) {
+	switch nd.Choose(label, zzT) {
 	case 0:
 		return "a"
 	case 1:
@@ -71,7 +75,7 @@ func zzInitial() *reftree.Node {
 // the same operation on the twin B. It returns the operation name and whether
 // the step is inside the statement (both sides accept it).
 func zzApply(c filesystem.Filespace, b *reftree.Node) (string, bool) {
-	op := nd.Choose("op", nd.Param("OPS", oNOps))
+	op := nd.Choose("op", zzOps)
 	p := zzPath("path")
 	segs, climbs := reftree.Norm(p)
 	if climbs || len(segs) == 0 {
@@ -140,12 +144,23 @@ func zzApply(c filesystem.Filespace, b *reftree.Node) (string, bool) {
 // (optionally with one injected remote failure and a retry): the remote is
 // untouched before Commit and equals the twin afterwards.
 func ZZVerifC06Commit() {
+	zzT, zzOps = nd.Param("T", 9), nd.Param("OPS", oNOps)
+	zzCommit(nd.Param("K", 2), nd.Param("F", 1))
+}
+
+// ZZVerifC06Pairs: two-operation histories over the three existing paths and
+// the five non-copy operations (cheap enough for the quick tier).
+func ZZVerifC06Pairs() {
+	zzT, zzOps = nd.Param("PT", 3), nd.Param("POPS", 5)
+	zzCommit(nd.Param("PK", 2), nd.Param("PF", 1))
+}
+
+func zzCommit(k, f int) {
 	r0 := zzInitial()
 	remote := reftree.NewFS(zzInitial())
 	b := zzInitial()
 	c, err := fscache.NewMemCache(remote)
 	nd.Assume(err == nil)
-	k := nd.Param("K", 2)
 	hist := ""
 	for i := 0; i < k; i++ {
 		name, inside := zzApply(c, b)
@@ -157,7 +172,7 @@ func ZZVerifC06Commit() {
 		nd.Assert(*remote.Mutations == 0, "C06/remote-untouched-before-commit")
 	}
 	nd.Assert(reftree.Same(remote, r0, nil), "C06/remote-tree-unchanged-before-commit")
-	failAt := nd.Choose("failat", nd.Param("F", 1)+1) - 1
+	failAt := nd.Choose("failat", f+1) - 1
 	*remote.Calls = 0
 	*remote.FailAt = failAt
 	err = c.Commit()
@@ -186,12 +201,23 @@ func ZZVerifC06Commit() {
 // the cache (and through a child view of it) answers as if the pending
 // operations had been applied on top of the remote.
 func ZZVerifC07ReadYourWrites() {
+	zzT, zzOps = nd.Param("T", 9), nd.Param("OPS", oNOps)
+	zzRYW(nd.Param("K", 1))
+}
+
+// ZZVerifC07Pairs: two-operation histories over the three existing paths and
+// the five non-copy operations (cheap enough for the quick tier).
+func ZZVerifC07Pairs() {
+	zzT, zzOps = nd.Param("PT", 3), nd.Param("POPS", 5)
+	zzRYW(nd.Param("PK", 2))
+}
+
+func zzRYW(k int) {
 	remote := reftree.NewFS(zzInitial())
 	b := zzInitial()
 	c, err := fscache.NewMemCache(remote)
 	nd.Assume(err == nil)
 	nd.Assert(reftree.Same(c, b, nil), "C07/initial-view")
-	k := nd.Param("K", 1)
 	hist := ""
 	for i := 0; i < k; i++ {
 		name, inside := zzApply(c, b)
